@@ -1,6 +1,8 @@
 import FatVerif.Proofs.FileSimRead
 import FatVerif.Proofs.FileSimSeek
 import FatVerif.Proofs.FileSimWrite
+import FatVerif.Proofs.FileSimWriteAlloc
+import FatVerif.Proofs.FileSimTruncate
 /-!
 # C02, simulation: the byte-level `File` of Model/File.lean refines the byte array with a cursor
 
@@ -11,8 +13,10 @@ the fault-free path (`failAt = none`), and composes the two.
 * abstraction `FileSim.absFile fs img f`, representation invariant `FileSim.FileRep fs img f`, layout `FileSim.Geo`
   (Proofs/FileSimIter.lean, Proofs/FileSimDefs.lean);
 * `FileSim.read_sim`, `FileSim.seek_sim` (Proofs/FileSimRead.lean, Proofs/FileSimSeek.lean);
-* `FileSim.write_sim_noalloc` (Proofs/FileSimWrite.lean);
-* `fileh_refines_bytefile_partial` below.
+* `FileSim.write_sim_noalloc` (Proofs/FileSimWrite.lean), `FileSim.write_sim_alloc` (Proofs/FileSimWriteAlloc.lean),
+  `FileSim.truncate_sim` (Proofs/FileSimTruncate.lean), on top of the forward evaluation of the FAT operations on the
+  image (Proofs/FileSimFat*.lean);
+* `fileh_refines_bytefile` below.
 -/
 namespace FatVerif.FileSim
 open FatVerif FatVerif.Fat
@@ -22,6 +26,7 @@ inductive HOp where
   | read (n : Nat)
   | seek (p : FatVerif.SeekFrom)
   | write (bs : List Nat)
+  | truncate
   deriving Repr
 
 /-- the corresponding operation of the cursor machine / the specification -/
@@ -29,6 +34,7 @@ def HOp.toOp : HOp → Cursor.FileOp
   | .read n => .read n
   | .seek p => .seek (convSeek p)
   | .write bs => .write bs
+  | .truncate => .truncate
 
 /-- run ONE operation of the byte-level model: observable result, new handle (the old one after an error), device -/
 def execH (op : HOp) (f : FileH) (d : Dev) : Cursor.FileRes × FileH × Dev :=
@@ -45,6 +51,10 @@ def execH (op : HOp) (f : FileH) (d : Dev) : Cursor.FileRes × FileH × Dev :=
     match run (f.write bs) d with
     | (.ok (k, f'), d') => (.count k, f', d')
     | (.error e, d') => (.err e, f, d')
+  | .truncate =>
+    match run f.truncate d with
+    | (.ok f', d') => (.unit, f', d')
+    | (.error e, d') => (.err e, f, d')
 
 /-- a history -/
 def runH : List HOp → FileH → Dev → List Cursor.FileRes × FileH × Dev
@@ -55,44 +65,29 @@ def runH : List HOp → FileH → Dev → List Cursor.FileRes × FileH × Dev
     (r.1 :: rest.1, rest.2)
 
 /-- the standing hypotheses: no scheduled fault, well-formed page table of the image, the layout fits the device,
-    the handle is represented -/
+    the handle is represented, the FS-info bookkeeping (next-free hint, cached free count) matches the FAT -/
 structure SimInv (f : FileH) (d : Dev) : Prop where
   nofault : d.failAt = none
   wf : d.img.WF
   geo : Geo d.fs d.img.size
   rep : FileRep d.fs d.img f
+  info : InfoOk d.fs d.img
 
-/-- side condition of the partial theorem on ONE operation: a `write` carries bytes and does not need a new
-    cluster (it has nothing to write, or the cursor is inside a cluster, or on a boundary with a next cluster) -/
-def OpOk (op : HOp) (f : FileH) (d : Dev) : Prop :=
-  match op with
-  | .write bs => (∀ b ∈ bs, b < 256) ∧
-      ((absFile d.fs d.img f).writeLen bs.length = 0 ∨ (absFile d.fs d.img f).readCluster ≠ none)
-  | _ => True
-
-/-- … along a history -/
-def RunOk : List HOp → FileH → Dev → Prop
-  | [], _, _ => True
-  | op :: ops, f, d => OpOk op f d ∧ RunOk ops (execH op f d).2.1 (execH op f d).2.2
-
-/-- the allocator of the machine for steps that do not allocate -/
-def noAlloc : Cursor.Allocator (Nat → FatValue) where
-  alloc := fun _ => none
-  release := fun _ s => s
-
-theorem noAlloc_laws : Cursor.AllocLaws noAlloc viewFree where
-  alloc_free := by intro s c s' h; cases h
-  alloc_frame := by intro s c s' d h; cases h
-  release_sub := by intro l s d h; exact Or.inl h
+/-- the buffers of the writes of a history carry bytes -/
+def BytesOk : List HOp → Prop
+  | [] => True
+  | .write bs :: ops => (∀ b ∈ bs, b < 256) ∧ BytesOk ops
+  | _ :: ops => BytesOk ops
 
 /-- one step: the invariants are kept, the cluster size stays, and the observable result is accepted by the
     `ByteFile` oracle, which moves from the abstraction of the old state to that of the new one -/
-theorem execH_refines (op : HOp) (f : FileH) (d : Dev) (h : SimInv f d) (hok : OpOk op f d) :
+theorem execH_refines (op : HOp) (f : FileH) (d : Dev) (h : SimInv f d)
+    (hok : ∀ bs, op = .write bs → ∀ b ∈ bs, b < 256) :
     SimInv (execH op f d).2.1 (execH op f d).2.2 ∧
     (execH op f d).2.2.fs.clusterSize = d.fs.clusterSize ∧
     Cursor.ByteFile.check d.fs.clusterSize op.toOp (execH op f d).1 (absFile d.fs d.img f).abs =
       .ok (absFile (execH op f d).2.2.fs (execH op f d).2.2.img (execH op f d).2.1).abs := by
-  obtain ⟨hfa, hwf, hg, hrep⟩ := h
+  obtain ⟨hfa, hwf, hg, hrep, hinfo⟩ := h
   cases op with
   | read n =>
     obtain ⟨bs, f', d', hr, hs, hres, hab, hrep'⟩ := read_sim f n d hfa hg hrep
@@ -100,7 +95,7 @@ theorem execH_refines (op : HOp) (f : FileH) (d : Dev) (h : SimInv f d) (hok : O
     rw [hres] at hl; cases hl
     simp only [execH, hr, HOp.toOp]
     refine ⟨⟨by rw [hs.failAt]; exact hfa, by rw [hs.img]; exact hwf, by rw [hs.fs, hs.img]; exact hg,
-      by rw [hs.fs, hs.img]; exact hrep'⟩, by rw [hs.fs], ?_⟩
+      by rw [hs.fs, hs.img]; exact hrep', by rw [hs.fs, hs.img]; exact hinfo⟩, by rw [hs.fs], ?_⟩
     rw [hs.fs, hs.img, hab]; exact hchk
   | seek p =>
     rcases seek_sim f p d hfa hg hrep with ⟨pos, f', d', hr, hs, hres, hab, hrep'⟩ | ⟨hr, hm⟩
@@ -108,64 +103,95 @@ theorem execH_refines (op : HOp) (f : FileH) (d : Dev) (h : SimInv f d) (hok : O
       · rw [hres] at hq; cases hq
         simp only [execH, hr, HOp.toOp]
         refine ⟨⟨by rw [hs.failAt]; exact hfa, by rw [hs.img]; exact hwf, by rw [hs.fs, hs.img]; exact hg,
-          by rw [hs.fs, hs.img]; exact hrep'⟩, by rw [hs.fs], ?_⟩
+          by rw [hs.fs, hs.img]; exact hrep', by rw [hs.fs, hs.img]; exact hinfo⟩, by rw [hs.fs], ?_⟩
         rw [hs.fs, hs.img, hab]; exact hchk
       · rw [hres] at he; cases he
     · rcases hrep.inv.seek_refines (convSeek p) with ⟨q, hq, _⟩ | ⟨_, _, hchk⟩
       · rw [hm] at hq; cases hq
       · simp only [execH, hr, HOp.toOp]
-        exact ⟨⟨hfa, hwf, hg, hrep⟩, trivial, hchk⟩
+        exact ⟨⟨hfa, hwf, hg, hrep, hinfo⟩, trivial, hchk⟩
   | write bs =>
-    obtain ⟨hbytes, hno⟩ := hok
-    obtain ⟨k, f', d', hr, hs, hres, _, hcore, hrep', _, _, _⟩ :=
-      write_sim_noalloc noAlloc (tabView d.fs d.img) f bs d hfa hg hrep hwf hbytes hno
+    have hbytes := hok bs rfl
+    have hspec := hrep.inv.write_refines (fatAllocator_laws d.fs.totalClusters d.fs.fsInfo.next) bs
+    by_cases hno : (absFile d.fs d.img f).writeLen bs.length = 0 ∨ (absFile d.fs d.img f).readCluster ≠ none
+    · -- no allocation
+      obtain ⟨k, f', d', hr, hs, hres, _, hcore, hrep', htv', hfi', _⟩ :=
+        write_sim_noalloc (fatAllocator d.fs.totalClusters d.fs.fsInfo.next) (tabView d.fs d.img) f bs d hfa hg hrep
+          hwf hbytes hno
+      simp only [execH, hr, HOp.toOp]
+      refine ⟨⟨by rw [hs.failAt]; exact hfa, hs.wf hwf, by rw [hs.size]; exact hg.frame hs.geom, hrep',
+        ⟨by rw [hfi']; exact hinfo.hint, by rw [hfi', htv', hs.geom.totalClusters]; exact hinfo.count⟩⟩,
+        hs.geom.clusterSize, ?_⟩
+      rcases hspec with ⟨he, _⟩ | ⟨hres', hi, _, _, hchk⟩
+      · rw [he] at hres; cases hres
+      · rw [hres] at hres'
+        have hk : k = (absFile d.fs d.img f).writeLen bs.length := Except.ok.inj hres'
+        rw [hk, hcore.abs_eq hi.cs_pos hi.cover]; exact hchk
+    · -- a cluster is needed
+      have hrcn : (absFile d.fs d.img f).readCluster = none := by
+        cases h : (absFile d.fs d.img f).readCluster with
+        | none => rfl
+        | some c => exact absurd (Or.inr (by rw [h]; intro e; cases e)) hno
+      have hw0 : (absFile d.fs d.img f).writeLen bs.length ≠ 0 := fun h0 => hno (Or.inl h0)
+      rcases write_sim_alloc f bs d hfa hg hrep hwf hinfo hbytes hrcn hw0 with
+        ⟨d', hr, hma, hs, hab, hrep', hinfo'⟩ | ⟨k, f', d', hr, hres, hs, hcore, hrep', hinfo'⟩
+      · simp only [execH, hr, HOp.toOp]
+        refine ⟨⟨by rw [hs.failAt]; exact hfa, hs.wf hwf, by rw [hs.size]; exact hg.frame hs.geom, hrep', hinfo'⟩,
+          hs.geom.clusterSize, ?_⟩
+        rcases hspec with ⟨_, _, _, _, hchk⟩ | ⟨hres', _⟩
+        · rw [hab]; exact hchk
+        · rw [hma] at hres'; cases hres'
+      · simp only [execH, hr, HOp.toOp]
+        refine ⟨⟨by rw [hs.failAt]; exact hfa, hs.wf hwf, by rw [hs.size]; exact hg.frame hs.geom, hrep', hinfo'⟩,
+          hs.geom.clusterSize, ?_⟩
+        rcases hspec with ⟨he, _⟩ | ⟨hres', hi, _, _, hchk⟩
+        · rw [he] at hres; cases hres
+        · rw [hres] at hres'
+          have hk : k = (absFile d.fs d.img f).writeLen bs.length := Except.ok.inj hres'
+          rw [hk, hcore.abs_eq hi.cs_pos hi.cover]; exact hchk
+  | truncate =>
+    obtain ⟨f', d', hr, hs, _, hcore, hrep', hinfo'⟩ := truncate_sim f d hfa hg hrep hwf hinfo
+    obtain ⟨_, hi, hab, _⟩ := hrep.inv.truncate_refines (fatAllocator_laws d.fs.totalClusters d.fs.fsInfo.next)
     simp only [execH, hr, HOp.toOp]
-    refine ⟨⟨by rw [hs.failAt]; exact hfa, hs.wf hwf, by rw [hs.size]; exact hg.frame hs.geom, hrep'⟩,
+    refine ⟨⟨by rw [hs.failAt]; exact hfa, hs.wf hwf, by rw [hs.size]; exact hg.frame hs.geom, hrep', hinfo'⟩,
       hs.geom.clusterSize, ?_⟩
-    rcases hrep.inv.write_refines noAlloc_laws bs with ⟨he, _⟩ | ⟨hres', hi, _, _, hchk⟩
-    · rw [he] at hres; cases hres
-    · rw [hres] at hres'
-      have hk : k = (absFile d.fs d.img f).writeLen bs.length := Except.ok.inj hres'
-      rw [hk]
-      have habs := hcore.abs_eq hi.cs_pos hi.cover
-      rw [habs]; exact hchk
+    simp only [Cursor.ByteFile.check]
+    rw [hcore.abs_eq hi.cs_pos hi.cover, hab]
 
-/-- **`fileh_refines_bytefile_partial`.**  For every finite sequence of `read` / `seek` (all three forms) /
-    `write` on one handle of the byte-level model `FileH`, started in a state satisfying the invariants (no scheduled
-    device fault, well-formed image pages, layout `Geo`, representation invariant `FileRep`): the observable results
-    — the bytes of every read, the position or the `InvalidInput` of every seek, the count of every write — are
-    exactly what the byte array with a cursor prescribes (`ByteFile.checkRun`, short-read / short-write rule
-    included), from `abs (absFile …)` of the initial handle on the initial image to that of the final handle on the
-    final image; the invariants hold again.
+/-- **`fileh_refines_bytefile`.**  For every finite sequence of `read` / `seek` (all three forms) / `write` /
+    `truncate` on one handle of the byte-level model `FileH` (programs of Model/File.lean run on a device image), started
+    in a state satisfying the invariants (no scheduled device fault, well-formed image pages, layout `Geo`,
+    representation invariant `FileRep`, FS-info bookkeeping `InfoOk`) and with write buffers made of bytes: the
+    observable results — the bytes of every read, the position or the `InvalidInput` of every seek, the count or the
+    `NotEnoughSpace` of every write, the success of every truncate — are exactly what the byte array with a cursor
+    prescribes (`ByteFile.checkRun`: short-read / short-write rule, clamping, rejection, `take pos` after truncate),
+    from `abs (absFile …)` of the initial handle on the initial image to that of the final handle on the final image;
+    the invariants hold again.  Allocation scans the FAT of the image (`alloc_cluster`, all three FAT types), links
+    the new cluster, updates the FS-info hint and count; truncation frees the tail of the chain in the FAT.
 
-    PARTIAL.  Missing pieces, spelled out by `RunOk`: (1) every `write` of the history carries bytes `< 256` and does
-    NOT need a new cluster (overwrite / extension inside the chain); the simulation of `alloc_cluster` on the FAT bytes
-    is not done.  (2) `truncate` is not in the alphabet.  (3) single handle, fault-free device. -/
-theorem fileh_refines_bytefile_partial : ∀ (ops : List HOp) (f : FileH) (d : Dev), SimInv f d → RunOk ops f d →
+    Restrictions that remain: one handle; fault-free device; the handle's 32-byte directory record is not flushed
+    (no `flush`/drop in the alphabet — C14 covers it); the loops `read_exact`/`write_all` are not in the alphabet
+    (`Props/C02.lean` composes them on the machine). -/
+theorem fileh_refines_bytefile : ∀ (ops : List HOp) (f : FileH) (d : Dev), SimInv f d → BytesOk ops →
     SimInv (runH ops f d).2.1 (runH ops f d).2.2 ∧
     (runH ops f d).2.2.fs.clusterSize = d.fs.clusterSize ∧
     Cursor.ByteFile.checkRun d.fs.clusterSize (ops.map HOp.toOp) (runH ops f d).1 (absFile d.fs d.img f).abs =
       .ok (absFile (runH ops f d).2.2.fs (runH ops f d).2.2.img (runH ops f d).2.1).abs
   | [], f, d, h, _ => ⟨h, rfl, rfl⟩
   | op :: ops, f, d, h, hok => by
-    obtain ⟨hi, hcs, hchk⟩ := execH_refines op f d h hok.1
-    obtain ⟨ri, rcs, rchk⟩ := fileh_refines_bytefile_partial ops _ _ hi hok.2
+    have hop : (∀ bs, op = .write bs → ∀ b ∈ bs, b < 256) ∧ BytesOk ops := by
+      cases op with
+      | write bs => exact ⟨fun bs' e => by cases e; exact hok.1, hok.2⟩
+      | read n => exact ⟨fun bs' e => (by cases e), hok⟩
+      | seek p => exact ⟨fun bs' e => (by cases e), hok⟩
+      | truncate => exact ⟨fun bs' e => (by cases e), hok⟩
+    obtain ⟨hi, hcs, hchk⟩ := execH_refines op f d h hop.1
+    obtain ⟨ri, rcs, rchk⟩ := fileh_refines_bytefile ops _ _ hi hop.2
     simp only [runH, List.map]
     refine ⟨ri, rcs.trans hcs, ?_⟩
     simp only [Cursor.ByteFile.checkRun, hchk]
     rw [hcs] at rchk
     exact rchk
-
-/-- read-only histories need no side condition -/
-theorem runOk_of_readonly : ∀ (ops : List HOp) (f : FileH) (d : Dev),
-    (∀ op ∈ ops, ∀ bs, op ≠ .write bs) → RunOk ops f d
-  | [], _, _, _ => trivial
-  | op :: ops, f, d, h => by
-    refine ⟨?_, runOk_of_readonly ops _ _ (fun o ho => h o (List.mem_cons_of_mem _ ho))⟩
-    cases op with
-    | write bs => exact absurd rfl (h _ (List.mem_cons_self) bs)
-    | read n => trivial
-    | seek p => trivial
 
 end FatVerif.FileSim
 
@@ -187,10 +213,10 @@ def img16 : Img :=
 
 def dev16 : Dev := { img := img16, fs := fs16 }
 
-/-- a 700-byte file on the chain `[3, 5]`, cursor at 509 (three bytes before the cluster boundary) -/
+/-- a 1020-byte file on the chain `[3, 5]`, cursor at 509 (three bytes before the cluster boundary) -/
 def file16 : FileH :=
   { firstCluster := some 3, currentCluster := some 3, offset := 509,
-    entry := some (DirEntryEditor.new { DirFileEntryData.new (List.replicate 11 65) 0 with size := 700 } 1536) }
+    entry := some (DirEntryEditor.new { DirFileEntryData.new (List.replicate 11 65) 0 with size := 1020 } 1536) }
 
 theorem chain16 : fileChain fs16 img16 file16 = [3, 5] := by decide +kernel
 
@@ -212,12 +238,12 @@ theorem geo16 : Geo fs16 img16.size where
   small := by decide
 
 theorem rep16 : FileRep fs16 img16 file16 where
-  file := ⟨700, by decide⟩
+  file := ⟨1020, by decide⟩
   inv := {
     cs_pos := by decide
     nodup := by show (fileChain fs16 img16 file16).Nodup; rw [chain16]; decide
     first := by show some 3 = (fileChain fs16 img16 file16).head?; rw [chain16]; rfl
-    cover := by show 700 ≤ (fileChain fs16 img16 file16).length * 512; rw [chain16]; decide
+    cover := by show 1020 ≤ (fileChain fs16 img16 file16).length * 512; rw [chain16]; decide
     off_le := by decide
     size_le := by decide
     cur := by
@@ -252,42 +278,61 @@ theorem rep16 : FileRep fs16 img16 file16 where
 theorem wf16 : img16.WF :=
   Img.wf_write _ (Img.wf_write _ (Img.wf_write _ (Img.wf_write _ (Img.wf_empty _) _ _) _ _) _ _) _ _
 
+theorem info16 : InfoOk fs16 img16 where
+  hint := by intro n h; cases h
+  count := by
+    intro n h
+    have : n = 3 := (Option.some.inj h).symm
+    subst this
+    decide +kernel
+
 /-- the hypotheses of the simulation theorems hold for this device and handle -/
-theorem simInv16 : SimInv file16 dev16 := ⟨rfl, wf16, geo16, rep16⟩
+theorem simInv16 : SimInv file16 dev16 := ⟨rfl, wf16, geo16, rep16, info16⟩
 
 /-- a history: read up to the cluster boundary, overwrite the first two bytes of the next cluster, go back, read
-    across the boundary in two calls, an invalid seek, a seek beyond the end -/
+    across the boundary in two calls, an invalid seek, a seek beyond the end (clamps to 1020); then append 6 bytes:
+    the first call fills cluster 5 (4 bytes, short write), the second one allocates a cluster through the FAT of the
+    image; finally truncate at 600 (frees the new cluster) and read at the end -/
 def ops16 : List HOp :=
-  [.read 10, .write [7, 8], .seek (.start 510), .read 10, .read 4, .seek (.cur (-600)), .seek (.start 9999)]
+  [.read 10, .write [7, 8], .seek (.start 510), .read 10, .read 4, .seek (.cur (-600)), .seek (.start 9999),
+   .write [1, 2, 3, 4, 5, 6], .write [5, 6], .seek (.start 600), .truncate, .seek (.fromEnd 5), .read 3]
 
-/-- the side condition of the partial theorem holds: the write happens on a boundary with a next cluster -/
-theorem runOk16 : RunOk ops16 file16 dev16 := by
-  refine ⟨trivial, ⟨by decide, ?_⟩, trivial, trivial, trivial, trivial, trivial, trivial⟩
-  right
+theorem bytesOk16 : BytesOk ops16 := ⟨by decide, by decide, by decide, trivial⟩
+
+/-- the byte-level model, evaluated -/
+theorem run16 : (runH ops16 file16 dev16).1 =
+    [.bytes [11, 12, 13], .count 2, .pos 510, .bytes [12, 13], .bytes [7, 8, 23, 0], .err .invalidInput, .pos 1020,
+     .count 4, .count 2, .pos 600, .unit, .pos 600, .bytes []] := by
   decide +kernel
 
-/-- the byte-level model, evaluated: a read of 10 bytes three bytes before the cluster boundary returns the 3 bytes up
-    to the boundary (short read); the write lands in cluster 5 (found through the FAT of the image); the reads after
-    the seek return `12 13` and then the overwritten `7 8` followed by `23 0`; a seek before the start is rejected; a
-    seek beyond the end clamps to the size 700 -/
-theorem run16 : (runH ops16 file16 dev16).1 =
-    [.bytes [11, 12, 13], .count 2, .pos 510, .bytes [12, 13], .bytes [7, 8, 23, 0], .err .invalidInput, .pos 700] := by
+/-- the new cluster was taken from the FAT of the image (cluster 2, the first free one) and linked after 5 -/
+theorem fat16_alloc :
+    fileChain (runH (ops16.take 9) file16 dev16).2.2.fs (runH (ops16.take 9) file16 dev16).2.2.img
+      (runH (ops16.take 9) file16 dev16).2.1 = [3, 5, 2] := by
+  decide +kernel
+
+/-- … and freed again by the truncate: afterwards the chain of the file is `3 → 5` and cluster 2 is free -/
+theorem fat16_after :
+    fileChain (runH ops16 file16 dev16).2.2.fs (runH ops16 file16 dev16).2.2.img (runH ops16 file16 dev16).2.1 = [3, 5] ∧
+    tabView (runH ops16 file16 dev16).2.2.fs (runH ops16 file16 dev16).2.2.img 2 = .free := by
   decide +kernel
 
 /-- … and the cursor machine on the abstraction of the same handle gives the same results -/
 theorem machine16 :
-    (Cursor.AFile.run Cursor.counterAllocator (ops16.map HOp.toOp)
-      (absFile fs16 img16 file16) { next := 7, free := 3 }).1 =
-    [.bytes [11, 12, 13], .count 2, .pos 510, .bytes [12, 13], .bytes [7, 8, 23, 0], .err .invalidInput, .pos 700] := by
+    (Cursor.AFile.run (fatAllocator 5 none) (ops16.map HOp.toOp)
+      (absFile fs16 img16 file16) (tabView fs16 img16)).1 =
+    [.bytes [11, 12, 13], .count 2, .pos 510, .bytes [12, 13], .bytes [7, 8, 23, 0], .err .invalidInput, .pos 1020,
+     .count 4, .count 2, .pos 600, .unit, .pos 600, .bytes []] := by
   decide +kernel
 
 /-- the conclusion theorem applied to the example: the evaluated results are accepted by the specification -/
 theorem spec16 :
     Cursor.ByteFile.checkRun 512 (ops16.map HOp.toOp)
-      [.bytes [11, 12, 13], .count 2, .pos 510, .bytes [12, 13], .bytes [7, 8, 23, 0], .err .invalidInput, .pos 700]
+      [.bytes [11, 12, 13], .count 2, .pos 510, .bytes [12, 13], .bytes [7, 8, 23, 0], .err .invalidInput, .pos 1020,
+       .count 4, .count 2, .pos 600, .unit, .pos 600, .bytes []]
       (absFile fs16 img16 file16).abs =
     .ok (absFile (runH ops16 file16 dev16).2.2.fs (runH ops16 file16 dev16).2.2.img (runH ops16 file16 dev16).2.1).abs := by
-  have := (fileh_refines_bytefile_partial ops16 file16 dev16 simInv16 runOk16).2.2
+  have := (fileh_refines_bytefile ops16 file16 dev16 simInv16 bytesOk16).2.2
   rw [run16] at this
   exact this
 
